@@ -1136,11 +1136,11 @@ class HandHistory(Iterable[State]):
                             if card:
                                 raw_hole_cards[position][i] = repr(card)
                 elif isinstance(operation, HoleCardsShowingOrMucking):
+                    shower_hole_cards = raw_hole_cards[operation.player_index]
+
                     for i, card in enumerate(operation.hole_cards):
-                        if card:
-                            raw_hole_cards[operation.player_index][i] = repr(
-                                card,
-                            )
+                        if card and repr(card) not in shower_hole_cards:
+                            shower_hole_cards[i] = repr(card)
 
                 if isinstance(operation, BoardDealing):
                     actions += '/'
@@ -1222,11 +1222,11 @@ class HandHistory(Iterable[State]):
                                 card,
                             )
                 elif isinstance(operation, HoleCardsShowingOrMucking):
+                    shower_hole_cards = raw_hole_cards[operation.player_index]
+
                     for i, card in enumerate(operation.hole_cards):
-                        if card:
-                            raw_hole_cards[operation.player_index][i] = repr(
-                                card,
-                            )
+                        if card and repr(card) not in shower_hole_cards:
+                            shower_hole_cards[i] = repr(card)
                 elif isinstance(operation, BoardDealing):
                     actions += '/'
                     board_cards += '/' + ''.join(map(repr, operation.cards))
